@@ -324,9 +324,39 @@ def install_repeat_pruning(ctx):
     seen = set()
     frames = {"last": None, "n": 0}
 
+    def fingerprint(fr):
+        st = [fr.f_code.co_name, fr.f_lineno]
+        for name, val in sorted(fr.f_locals.items()):
+            if name == "self":
+                continue
+            try:
+                if isinstance(val, nx.Graph):
+                    st.append((name, repr(snapshot(val))))
+                elif isinstance(val, (int, bool, str, float)) or val is None:
+                    st.append((name, repr(val)))
+                elif isinstance(val, tuple):
+                    st.append((name, repr(tuple(int(x) for x in val))))
+                elif hasattr(val, "__len__") and hasattr(val, "__iter__") and not isinstance(val, dict):
+                    st.append((name, repr(sorted(map(repr, val)))))
+            except Exception:  # noqa
+                pass
+        return tuple(st)
+
+    def hidden(me):
+        if me is None:
+            return ()
+        skip = {"_proposal_edges", "_acceptance_ratio", "_proposal_count", "_proposals_accepted", "_network", "_ejks", "_logger", "swap_condition"}
+        try:
+            return tuple((k, repr(v)[:2000]) for k, v in sorted(vars(me).items()) if k not in skip)
+        except TypeError:  # __slots__
+            return ()
+
     def hook(kind, seq):
         f = sys._getframe()
+        between = []  # library frames between the draw and rewire() (helpers a refactored rewire() may draw from)
         while f is not None and f.f_code.co_name != "rewire":
+            if "/gcmpy/" in f.f_code.co_filename and "draw_set" not in f.f_code.co_filename:
+                between.append(f)
             f = f.f_back
         if f is None:
             return
@@ -335,26 +365,12 @@ def install_repeat_pruning(ctx):
             frames["n"] += 1
         loc = f.f_locals
         G = loc.get("G")
-        if G is None or "convergence_count" not in loc:
-            # the local names this hook knows are gone (refactored rewire()): generic fallback - the state is every local that is a
-            # graph, a small scalar, a tuple of vertices or a sized iterable of tuples, at this source line.  Stale locals of the
-            # previous attempt make the first repeat look new, so one more level is explored than with the precise key.
-            st = [f.f_lineno]
-            for name, val in sorted(loc.items()):
-                if name == "self":
-                    continue
-                try:
-                    if isinstance(val, nx.Graph):
-                        st.append((name, repr(snapshot(val))))
-                    elif isinstance(val, (int, bool, str, float)) or val is None:
-                        st.append((name, repr(val)))
-                    elif isinstance(val, tuple):
-                        st.append((name, repr(tuple(int(x) for x in val))))
-                    elif hasattr(val, "__len__") and hasattr(val, "__iter__") and not isinstance(val, dict):
-                        st.append((name, repr(sorted(map(repr, val)))))
-                except Exception:  # noqa
-                    pass
-            key = (frames["n"], "generic", tuple(st))
+        if between or G is None or "convergence_count" not in loc:
+            # the draw is not made by rewire() itself or the local names this hook knows are gone (refactored code): generic fallback -
+            # the state is, for rewire() and every helper frame down to the draw, the source line and every local that is a graph, a
+            # small scalar, a tuple of vertices or a sized iterable.  Stale locals of the previous attempt make the first repeat look
+            # new, so one more level is explored than with the precise key.
+            key = (frames["n"], "generic", fingerprint(f), tuple(fingerprint(b) for b in between), tuple(sorted(map(repr, seq))), hidden(loc.get("self")))
             if key in seen:
                 raise PathAbort("repeat-state")
             seen.add(key)
